@@ -752,6 +752,188 @@ KINDS2 = ["plain", "depth", "filter", "notrace", "fn", "fd", "time", "timetrig",
           "deptrig", "fdt", "switch"]
 
 
+# ---------------------------------------------------------------- line 3: several tasks
+SCRIPT_M = """
+def uftrace_begin(ctx):
+    pass
+def uftrace_entry(ctx):
+    print("E %s %d %d" % (ctx["name"], ctx["depth"], ctx["tid"]))
+def uftrace_exit(ctx):
+    print("X %s %d %d" % (ctx["name"], ctx["depth"], ctx["tid"]))
+def uftrace_end():
+    pass
+"""
+RE_TID = re.compile(r"^\s*\[\s*(\d+)\] \| (.*)$")
+
+
+def parse_replay_m(out):
+    ev = []
+    for l in out.splitlines():
+        if not l.strip() or l.startswith("#"):
+            continue
+        if l.startswith("uftrace stopped tracing"):
+            break
+        m = RE_TID.match(l)
+        if not m:
+            raise ParseError("replay -f tid line not understood: %r" % l)
+        t = int(m.group(1)) - TID
+        for x, f, d in parse_replay(m.group(2)):
+            ev.append((t, (x, f, d)))
+    return ev
+
+
+def parse_script_m(out):
+    ev = []
+    for l in out.splitlines():
+        k = l.split()
+        if len(k) == 4 and k[0] in ("E", "X"):
+            ev.append((int(k[3]) - TID, (k[0] == "X", fn_of(k[1]), int(k[2]))))
+        elif l.strip():
+            raise ParseError("script line not understood: %r" % l)
+    return ev
+
+
+def parse_raw_m(out):
+    ev = []
+    for l in out.splitlines():
+        if l.startswith("uftrace file header") or l.startswith("reading ") or not l.strip():
+            continue
+        m = RE_RAW.match(l)
+        if not m:
+            raise ParseError("dump line not understood: %r" % l)
+        ev.append((int(m.group(3)) - TID, (m.group(4) == "exit ", fn_of(m.group(5)), int(m.group(7)),
+                                            int(m.group(1)) * 10**9 + int(m.group(2)))))
+    return ev
+
+
+RE_CHROME_M = re.compile(r'^\{"ts":(\d+)\.(\d{3}),"ph":"([BE])","pid":(\d+),(?:"tid":(\d+),)?"name":"([\w<>]+)"')
+
+
+def parse_chrome_m(out):
+    ev = []
+    for l in out.splitlines():
+        if '"ph":"M"' in l or '"ph"' not in l:
+            continue
+        m = RE_CHROME_M.match(l)
+        if not m:
+            raise ParseError("chrome line not understood: %r" % l)
+        tid = int(m.group(5) or m.group(4))
+        ev.append((tid - TID, (m.group(3) == "E", fn_of(m.group(6)), int(m.group(1)) * 1000 + int(m.group(2)))))
+    return ev
+
+
+def run_commands_m(objdir, d, cfg, script_path):
+    o = cli_opts(cfg)
+
+    def run(cmd, args):
+        rc, out, err = datadir.uftrace(objdir, cmd, d, args, timeout=30)
+        if rc != 0:
+            raise ParseError("uftrace %s %s failed rc=%d: %s" % (cmd, " ".join(args), rc, (out + err)[-400:]))
+        return out
+    return {"replay": parse_replay_m(run("replay", ["-f", "tid"] + o)),
+            "nomerge": parse_replay_m(run("replay", ["-f", "tid", "--no-merge"] + o)),
+            "script": parse_script_m(run("script", ["-S", script_path] + o)),
+            "raw": parse_raw_m(run("dump", o)),
+            "chrome": parse_chrome_m(run("dump", ["--chrome"] + o)),
+            "report": parse_report(run("report", o)),
+            "graph": parse_graph(run("graph", o))}
+
+
+def gen_mcase(rng, kind):
+    cfg, f, tags = gen_case(rng, kind)
+    ntask = rng.choice([2, 2, 3])
+    fs = [f]
+    for i in range(1, ntask):
+        g = forest.gen_shape(rng, NFUN, rng.choice([3, 6, 10]), rng.choice([2, 3, 4]))
+        forest.assign_times(rng, g, t0=rng.choice([1000, 1000, 1001, 1040]), durs=(1, 2, 3, 9, 10, 11, 99, 100, 101, 200))
+        fs.append(g)
+    times = [set(t for c in fcalls(g) for t in (c.t0, c.t1)) for g in fs]
+    if any(times[i] & times[j] for i in range(len(fs)) for j in range(i)):
+        tags.append("equal-timestamps-across-tasks")
+    return cfg, fs, tags + ["tasks=%d" % ntask]
+
+
+def mcase_term(mc):
+    o = mc["out"]
+
+    def tg(l, inner):
+        return "[%s]" % "; ".join("(%d%%nat, %s)" % (t, inner(e)) for t, e in l)
+    nd = lambda e: "(%s, %d%%N, %d)" % (b(e[0]), e[1], e[2])          # noqa: E731
+    rt = lambda e: "(%s, %d%%N, %d, %d%%N)" % (b(e[0]), e[1], e[2], e[3])   # noqa: E731
+    nt = lambda e: "(%s, %d%%N, %d%%N)" % (b(e[0]), e[1], e[2])        # noqa: E731
+    return ("{| mk_cfg := %s; mk_forests := [%s]; mk_nfun := %d;\n   mo_replay := %s;\n   mo_nomerge := %s;\n"
+            "   mo_script := %s;\n   mo_raw := %s;\n   mo_chrome := %s;\n   mo_report := %s;\n   mo_graph := %s |}") % (
+        coq_cfg(mc["cfg"]), "; ".join(coq_forest(f) for f in mc["forests"]), NFUN, tg(o["replay"], nd),
+        tg(o["nomerge"], nd), tg(o["script"], nd), tg(o["raw"], rt), tg(o["chrome"], nt), coq_nl(o["report"]),
+        coq_tri(o["graph"]))
+
+
+def line3(ctx, objdir, todo):
+    sp = os.path.join(ctx.scratch, "c07_script_m.py")
+    with open(sp, "w") as f:
+        f.write(SCRIPT_M)
+    d = os.path.join(ctx.scratch, "data3")
+    cases = []
+    for kind, cfg, fs, tags in todo:
+        try:
+            if os.path.exists(d):
+                shutil.rmtree(d)
+            datadir.write({"syms": syms_for(cfg), "base": BASE,
+                           "tasks": [{"tid": TID + i, "pid": TID, "recs": recs_of(f)} for i, f in enumerate(fs)]}, d)
+            out = run_commands_m(objdir, d, cfg, sp)
+        except ParseError as e:
+            ctx.violation("an analysis command failed or printed something unexpected (several tasks): %s" % e,
+                          {"line": 3, "mcase": {"cfg": cfg_json(cfg), "forests": [[c.to_json() for c in f] for f in fs],
+                                                "options": cli_opts(cfg)}}, True)
+            continue
+        cases.append({"kind": kind, "cfg": cfg, "forests": fs, "out": out, "tags": tags})
+    return cases
+
+
+MEVALS = ["replay", "nomerge", "script", "raw", "chrome", "report", "graph"]
+
+
+def evaluate3(ctx, cases, name="mcases"):
+    defs = "Definition mcases : list mcase := [\n%s\n].\n" % ";\n".join(mcase_term(c) for c in cases)
+    evs = [("mm_" + e, "bad_indices magree_%s mcases 0" % e) for e in MEVALS]
+    evs += [("v_agree", "bad_indices mok_agree mcases 0"), ("v_spec", "bad_indices mok_spec mcases 0"),
+            ("in_spec", "bad_indices (fun k => negb (mspec_class k)) mcases 0")]
+    res = coq.run_cases(ctx, name, PRE, defs, evs)
+    if res is None:
+        return None
+    return {k: coq.parse_nat_list(v) for k, v in res.items()}
+
+
+def mcase_json(c):
+    return {"cfg": cfg_json(c["cfg"]), "forests": [[x.to_json() for x in f] for f in c["forests"]],
+            "options": cli_opts(c["cfg"]), "kind": c.get("kind")}
+
+
+def verdict3(ctx, cases, res):
+    if res is None:
+        return
+    for i in res["v_spec"][:3]:
+        ctx.violation("C07 violated (several tasks): a task does not show the calls selected by the documented filter "
+                      "semantics for options %s" % " ".join(cli_opts(cases[i]["cfg"])),
+                      {"line": 3, "check": "mok_spec", "mcase": mcase_json(cases[i]), "outputs": cases[i]["out"]}, True)
+    for i in res["v_agree"][:3]:
+        ctx.violation("C07 violated (several tasks): the analysis commands disagree on the visible calls for options %s"
+                      % " ".join(cli_opts(cases[i]["cfg"])),
+                      {"line": 3, "check": "mok_agree", "mcase": mcase_json(cases[i]), "outputs": cases[i]["out"]}, True)
+    mm = {e: res["mm_" + e] for e in MEVALS if res["mm_" + e]}
+    if mm and not res["v_spec"] and not res["v_agree"]:
+        e, idx = sorted(mm.items())[0]
+        ctx.violation("model and implementation disagree for `%s` with several tasks on %d case(s) (%s)"
+                      % (e, len(idx), ", ".join("%s:%d" % (k, len(v)) for k, v in sorted(mm.items()))),
+                      {"line": 3, "correspondence": "C07.Model multi-task driver for %s vs the real command" % e,
+                       "mcase": mcase_json(cases[idx[0]]), "outputs": cases[idx[0]]["out"]}, False)
+    ctx.extra["disagreements_checked"] = ctx.extra.get("disagreements_checked", 0) + sum(len(v) for v in mm.values())
+
+
+KINDS3 = ["plain", "depth", "filter", "fn", "fd", "time", "timetrig", "caller", "hide", "deptrig", "mix", "mix2", "switch",
+          "range", "pltleaf", "plt"]
+
+
 # ---------------------------------------------------------------- dedicated witnesses of known divergences
 def C(k, t0, t1, kids=None):
     return Call(k, t0, t1, kids or [])
